@@ -742,6 +742,13 @@ class BaseConnector:
                 if traces:
                     for trace in traces:
                         await trace.send_connection_queued_end()
+            except BaseException:
+                if fut.done() and not fut.cancelled():
+                    # We were woken for a free slot but are leaving (cancelled
+                    # or timed out before running): pass the wake-up on, or
+                    # the next waiter sleeps forever with capacity available.
+                    self._release_waiter()
+                raise
             finally:
                 # pop the waiter from the queue if its still
                 # there and not already removed by _release_waiter
